@@ -204,6 +204,7 @@ func (c *PlanCache) Reset() {
 	if c == nil {
 		return
 	}
+	simYield("cache.reset.lock")
 	c.mu.Lock()
 	defer c.mu.Unlock()
 	c.entries = make(map[string]*list.Element, c.opts.MaxEntries)
@@ -215,6 +216,7 @@ func (c *PlanCache) shouldCache(querySize int) bool {
 }
 
 func (c *PlanCache) lookup(schema *Schema, key string) (PlanResult, bool) {
+	simYield("cache.lookup.lock")
 	c.mu.Lock()
 	defer c.mu.Unlock()
 	el, ok := c.entries[key]
@@ -235,6 +237,7 @@ func (c *PlanCache) lookup(schema *Schema, key string) (PlanResult, bool) {
 }
 
 func (c *PlanCache) store(schema *Schema, key string, pr PlanResult) {
+	simYield("cache.store.lock")
 	c.mu.Lock()
 	defer c.mu.Unlock()
 	if el, ok := c.entries[key]; ok {
